@@ -250,7 +250,27 @@ func (st *SortTable) ghostSort(s string) string {
 		return fmt.Sprintf("(Array Str %s)", st.idx())
 	}
 	if strings.HasPrefix(s, "smt:") {
-		return strings.ReplaceAll(strings.TrimPrefix(s, "smt:"), "~", " ")
+		r := strings.ReplaceAll(strings.TrimPrefix(s, "smt:"), "~", " ")
+		r = strings.ReplaceAll(r, "IDX", st.idx())
+		r = strings.ReplaceAll(r, "BYTE", st.byteSort())
+		return r
+	}
+	switch s {
+	case "bv8", "bv16", "bv32", "bv64", "i64", "i32":
+		if st.mode == ModeInt {
+			return "Int"
+		}
+		switch s {
+		case "bv8":
+			return "(_ BitVec 8)"
+		case "bv16":
+			return "(_ BitVec 16)"
+		case "bv32", "i32":
+			return "(_ BitVec 32)"
+		}
+		return "(_ BitVec 64)"
+	case "float":
+		return "Float"
 	}
 	return s
 }
